@@ -1010,9 +1010,18 @@ pub fn run_c12(ctx: &Ctx) -> i32 {
     let mut fault_outcomes = [0u64; 3]; // report sent, nothing sent, thread died
     let mut samples = vec![];
     // daemon side
+    let c12_dir = ctx.scratch().join("c12-phc");
+    let _ = std::fs::create_dir_all(&c12_dir);
+    let _ = std::fs::write(c12_dir.join("phc_ok"), "12345\n");
     for d in &deltas {
         for lat in &lats {
             for silent in [false, true] {
+             // PHC configuration: none; configured and chronyd's reference (error bound file readable); configured but
+             // not the reference; configured, the reference, file missing
+             for phc_mode in 0..4u8 {
+              if silent && phc_mode > 0 {
+                  continue;
+              }
               // fault: None, or "the k-th clock read of the poll fails once" (k over the reads a fault-free poll makes, +1)
               let mut faults: Vec<Option<u32>> = vec![None];
               let mut reads_without_fault = 0usize;
@@ -1032,12 +1041,19 @@ pub fn run_c12(ctx: &Ctx) -> i32 {
                     if let Some(k) = fault {
                         vclock::fail_once(-1, k, libc::EINVAL);
                     }
-                    let spec = TrackSpec { ref_id: 0, leap: 0, ref_time_ns: R0, offset_bits: encode_float(0.001), delay_bits: encode_float(0.01), disp_bits: encode_float(0.01), interval_bits: encode_float(16.0) };
-                    let msgs = life.poll_once(None, Query { answer: if silent { Answer::Silent } else { Answer::Wire(tracking_wire(&spec, 1)) }, latency_ns: *lat });
+                    let spec = TrackSpec { ref_id: if phc_mode == 2 { ID_B } else { ID_A }, leap: 0, ref_time_ns: R0, offset_bits: encode_float(0.001), delay_bits: encode_float(0.01), disp_bits: encode_float(0.01), interval_bits: encode_float(16.0) };
+                    let phc = match phc_mode {
+                        0 => None,
+                        3 => Some(PhcInfo { refid: ID_A, sysfs_error_bound_path: c12_dir.join("phc_missing") }),
+                        _ => Some(PhcInfo { refid: ID_A, sysfs_error_bound_path: c12_dir.join("phc_ok") }),
+                    };
+                    let msgs = life.poll_once(phc, Query { answer: if silent { Answer::Silent } else { Answer::Wire(tracking_wire(&spec, 1)) }, latency_ns: *lat });
                     (msgs, vclock::log_take())
                 });
                 vclock::disarm();
-                let doc = json!({"check": "C12", "side": "daemon", "advance_per_clock_read_ns": d, "reply_latency_ns": lat.to_string(), "chronyd_silent": silent, "clock_read_that_fails_once": fault});
+                let phc_name = ["not configured", "configured, chronyd's reference, error bound readable", "configured, not chronyd's reference", "configured, chronyd's reference, error bound file missing"][phc_mode as usize];
+                let doc = json!({"check": "C12", "side": "daemon", "advance_per_clock_read_ns": d, "reply_latency_ns": lat.to_string(), "chronyd_silent": silent, "clock_read_that_fails_once": fault,
+                    "phc": phc_name});
                 if fault.is_some() {
                     // a transient clock failure may end the poll (error logged, nothing sent) or kill the thread (std's
                     // Instant panics); what it must not do is produce a report whose as-of was read after the request
@@ -1081,6 +1097,7 @@ pub fn run_c12(ctx: &Ctx) -> i32 {
                                                 sink.add("C12:as-of-not-a-reading-before-the-request".into(), format!("as-of {a} ns is not a monotonic reading taken before the request was issued (reads before: {:?})", &log[..mk]), doc.clone());
                                             }
                                         }
+                                        Some(Message::PhcErrorBoundRetrievalFailed) | Some(Message::PhcErrorBoundRetrievalFailedGracePeriod) if phc_mode == 3 => {}
                                         other => sink.add("C12:no-data-message".into(), format!("expected a data message, got {other:?}"), doc.clone()),
                                     }
                                 }
@@ -1096,6 +1113,7 @@ pub fn run_c12(ctx: &Ctx) -> i32 {
                 }
               }
               let _ = reads_without_fault;
+             }
             }
         }
     }
@@ -1178,7 +1196,7 @@ pub fn run_c12(ctx: &Ctx) -> i32 {
     let coverage = cov(vec![
         ("evaluations", json!(n)),
         ("distinct_nontrivial", json!(n)),
-        ("rule", json!("cross product of (virtual time advance per clock read) x (reply latency) x (chronyd answers / silent) on the daemon side and (advance per read) x (record age) x (API route) on the client side; every read of every clock is logged by the interposed clock_gettime; all cases distinct")),
+        ("rule", json!("cross product of (virtual time advance per clock read) x (reply latency) x (chronyd answers / silent) x (PHC not configured / configured and the reference / configured and not the reference / the reference with its error bound unreadable) on the daemon side and (advance per read) x (record age) x (API route) on the client side; every read of every clock is logged by the interposed clock_gettime; all cases distinct")),
         ("samples", json!(samples)),
         ("transient_clock_failures", json!({"cases": n_fault, "rule": "daemon side, for advance 0 / 1 ms per read and latency 0 / 10 ms, answering and silent chronyd: each clock read of the poll in turn fails once (EINVAL)", "report_sent": fault_outcomes[0], "nothing_sent": fault_outcomes[1], "poller_thread_died": fault_outcomes[2]})),
         ("advance_per_read_ns", json!(deltas)),
@@ -1190,7 +1208,7 @@ pub fn run_c12(ctx: &Ctx) -> i32 {
 }
 
 pub fn run(ctx: &Ctx) -> i32 {
-    std::panic::set_hook(Box::new(|_| {}));
+    crate::common::report::quiet_panics();
     pipeline::install();
     if let Err(e) = pipeline::wire_self_test() {
         machinery_failure(&e);
